@@ -1,5 +1,6 @@
 """Sidecar contracts.  PROPS maps a property id to the contract modules that carry it."""
 PROPS = {
+    "C21": ["c21_needs"],
     "C42": ["c42_timers"],
     "C43": ["c43_wrap"],
 }
